@@ -80,7 +80,7 @@ def conditions(ctx, clauses='g1,g2,g3,g4,g5', focus='C09'):
     for vi in ([0, 4] if q else [0, 2, 4, 6, 8]):
         C.append(xh.Cond(T, 'tok_chars1', timeout=200, path_timeout=60, env=env, name='tok/len=1/unicode/v%d.%d' % V[vi],
                          extra_pre=['vi == %d' % vi], bound=U1, symbolic='code point of the character'))
-    firsts = "'f\\# " if q else TOK.ALPHA
+    firsts = "'f\\#" if q else TOK.ALPHA
     if focus != 'C09' and q:
         firsts = "'\\"
     for ch in firsts:
